@@ -10,6 +10,7 @@ use actix_tls::connect::{ConnectError as TcpConnectError, ConnectInfo, Connectio
 use mc_core::io::{IoOpts, IoState, ScriptIo};
 use mc_core::Chooser;
 use std::cell::RefCell;
+use std::mem::ManuallyDrop;
 use std::pin::Pin;
 use std::task::{Context, Poll};
 use std::rc::Rc;
@@ -59,7 +60,7 @@ struct State {
 }
 
 thread_local! {
-    static ST: RefCell<Option<State>> = const { RefCell::new(None) };
+    static ST: RefCell<Option<ManuallyDrop<State>>> = const { RefCell::new(None) };
 }
 
 fn make() -> State {
@@ -179,10 +180,11 @@ async fn drive(input: &[u8], mode: Mode) -> Out {
 }
 
 fn exec(input: &[u8], mode: Mode) -> Out {
-    let mut st = ST.with(|c| c.borrow_mut().take()).filter(|s| s.uses < 256).unwrap_or_else(make);
+    let mut st = ST.with(|c| c.borrow_mut().take()).map(ManuallyDrop::into_inner).filter(|s| s.uses < 256).unwrap_or_else(make);
     st.uses += 1;
     let out = st.local.block_on(&st.rt, drive(input, mode));
-    ST.with(|c| *c.borrow_mut() = Some(st));
+    // (never dropped from the thread-local destructor: tokio's own thread-locals may be gone by then)
+    ST.with(|c| *c.borrow_mut() = Some(ManuallyDrop::new(st)));
     out
 }
 
@@ -256,6 +258,9 @@ pub fn group() -> Group {
             [3, 3],
         ),
     ];
+    let mut t = mk("long:header-name", b"HTTP/1.1 200 OK\r\nContent-Length: 0\r\n", b": x\r\n\r\n", crate::ep_h1::long_alphabet(), [2, 2]);
+    t.delivery = Delivery::Whole;
+    targets.push(t);
     targets.push(Target {
         name: "awc:seed".into(),
         prefix: vec![],
@@ -266,6 +271,22 @@ pub fn group() -> Group {
         double: false,
         delivery: Delivery::WholeBytes1,
         exec,
+    });
+    // thorough: every double mutation of two short responses
+    let exec2 = targets[0].exec.clone();
+    targets.push(Target {
+        name: "awc:seed:short".into(),
+        prefix: vec![],
+        suffix: vec![],
+        alphabet: vec![],
+        max_tokens: [0, 0],
+        seeds: vec![
+            seed("cl", &[P::B(b"HTTP/1.1 200 OK\r\nContent-Length: "), P::Dec(b"2"), P::B(b"\r\n\r\nok")]),
+            seed("redirect", &[P::B(b"HTTP/1.1 302 Found\r\nLocation: /n?x=1\r\nContent-Length: "), P::Dec(b"0"), P::B(b"\r\n\r\n")]),
+        ],
+        double: true,
+        delivery: Delivery::WholeBytes1,
+        exec: exec2,
     });
     Group { name: "awc", targets, setup: None, teardown: None }
 }
